@@ -23,6 +23,7 @@ func propC06() *Property {
 			{ID: "R06.3", Floor: 3, Text: "the failure branch after readOneSegment (stream) and the packet read loop call nothing that may write to the connection", Run: r05_5},
 			{ID: "R06.4", Floor: 2, Text: "replay.NewCache(capacity, interval): capacity > 0 and interval >= (timestamp margin + 1) minutes", Run: r06_4},
 			{ID: "R06.5", Floor: 3, Text: "every IsDuplicate call passes buffer[:cipher.DefaultOverhead] of a buffer filled from the network in the same function (or, for a record-and-decrypt helper, by each of its callers)", Run: r06_5},
+			{ID: "R06.9", Floor: 2, Text: "an entry is recorded only under a live deadline (an expired clock is re-armed first); no product code empties or replaces a process-wide replay cache", Run: r06_9},
 			{ID: "R06.8", Floor: 1, Text: "the replay signature is a hash of the whole item", Run: r06_8},
 			{ID: "R06.7", Floor: 1, Text: "every demotion of the current generation to previous restarts the expiry clock before the method returns", Run: r06_7},
 			{ID: "R06.6", Floor: 4, Text: "ReplayCache: every access to a non-constant field in a method happens with mu held; fields read outside the lock are never stored after NewCache and are not reference-typed", Run: r06_6},
@@ -763,5 +764,160 @@ func r06_8(c *RC) {
 	})
 	if n == 0 {
 		c.Undecided("signature-covers-item", fn.Pos(), "no return found")
+	}
+}
+
+
+// r06_9: an entry is never recorded under a deadline that has already
+// passed. IsDuplicate is explored with "now is after expireTime" assumed: the
+// insertion into the current generation must be unreachable without passing a
+// store that re-arms expireTime (directly, or in a helper that re-arms it on
+// every one of its paths under the same assumption). Otherwise the first
+// entry after an idle period is thrown away by the very next call, and its
+// replay is accepted (seed C06h: rotation skipped "while the cache is empty").
+// Also: nothing in product code empties a process-wide cache (Clear has no
+// product caller; seed C06g cleared both caches when a server Mux closes).
+func r06_9(c *RC) {
+	p := c.P
+	cur := p.Field("pkg/replay", "ReplayCache", "current")
+	exp := p.Field("pkg/replay", "ReplayCache", "expireTime")
+	fn := p.Fn("pkg/replay", "ReplayCache.IsDuplicate")
+	if cur == nil || exp == nil || fn == nil {
+		c.Anchor("ReplayCache.IsDuplicate / current / expireTime")
+		return
+	}
+	isExp := func(v ssa.Value) bool { return sameField(fieldOrigin(v), exp) }
+	atom := func(cond ssa.Value) (string, int, bool) {
+		v, neg := condAtom(cond)
+		ti := 0
+		if neg {
+			ti = 1
+		}
+		switch x := v.(type) {
+		case *ssa.Call:
+			switch calleeID(x) {
+			case "(time.Time).After":
+				if isExp(x.Call.Args[1]) {
+					return "expired", ti, true
+				}
+			case "(time.Time).Before":
+				if isExp(x.Call.Args[0]) {
+					return "expired", ti, true
+				}
+			}
+		case *ssa.BinOp:
+			// time.Since(expireTime) > 0 / now.Sub(expireTime) > 0
+			isElapsed := func(y ssa.Value) bool {
+				cl, ok := y.(*ssa.Call)
+				if !ok {
+					return false
+				}
+				switch calleeID(cl) {
+				case "time.Since":
+					return isExp(cl.Call.Args[0])
+				case "(time.Time).Sub":
+					return isExp(cl.Call.Args[1])
+				}
+				return false
+			}
+			if cmpForm(x, token.GTR, isElapsed, isZero) {
+				return "expired", ti, true
+			}
+			if cmpForm(x, token.LEQ, isElapsed, isZero) {
+				return "expired", 1 - ti, true
+			}
+		}
+		return "", 0, false
+	}
+	isReset := func(in ssa.Instruction) bool {
+		st, ok := in.(*ssa.Store)
+		if !ok {
+			return false
+		}
+		f, _ := fieldOfAddr(st.Addr)
+		return sameField(f, exp)
+	}
+	// helpers that re-arm on every path when expired
+	complete := map[*ssa.Function]bool{}
+	for _, h := range withHelpers(p, fn, 2)[1:] {
+		has := false
+		instrs(h, func(_ *ssa.BasicBlock, _ int, in ssa.Instruction) {
+			if isReset(in) {
+				has = true
+			}
+		})
+		if !has {
+			continue
+		}
+		ex := &Explorer{Fn: h, Atom: atom, Assume: map[string]bool{"expired": true}, Avoid: isReset}
+		if ex.Reach(nil, isReturn) == nil && !ex.Over {
+			complete[h] = true
+		}
+	}
+	avoid := func(in ssa.Instruction) bool {
+		if isReset(in) {
+			return true
+		}
+		if cl, ok := in.(*ssa.Call); ok {
+			if sc := cl.Call.StaticCallee(); sc != nil && complete[sc] {
+				return true
+			}
+		}
+		return false
+	}
+	isInsert := func(in ssa.Instruction) bool {
+		mu, ok := in.(*ssa.MapUpdate)
+		return ok && sameField(fieldOrigin(mu.Map), cur)
+	}
+	nIns := 0
+	instrs(fn, func(_ *ssa.BasicBlock, _ int, in ssa.Instruction) {
+		if isInsert(in) {
+			nIns++
+		}
+	})
+	if nIns == 0 {
+		c.Undecided("record-under-live-deadline", fn.Pos(), "IsDuplicate does not insert into the current generation")
+	} else {
+		ex := &Explorer{Fn: fn, Atom: atom, Assume: map[string]bool{"expired": true}, Avoid: avoid}
+		hit := ex.Reach(nil, isInsert)
+		switch {
+		case ex.Over:
+			c.Undecided("record-under-live-deadline", fn.Pos(), "exploration budget exceeded")
+		case hit != nil:
+			c.Bad("record-under-live-deadline", hit.Pos(), "with the expiry deadline already passed, IsDuplicate can record an entry without re-arming expireTime first: the entry is stored under a stale deadline, the next call rotates it away, and a replay of that first item after an idle period is accepted")
+		default:
+			c.OKH("record-under-live-deadline", fn.Pos(), "with now after expireTime assumed, every path to the insertion passes expireTime = now + interval (%d states)", ex.States)
+		}
+	}
+	// nobody empties a cache
+	n := 0
+	for _, name := range []string{"ReplayCache.Clear"} {
+		cf := p.Fn("pkg/replay", name)
+		if cf == nil {
+			continue
+		}
+		for _, cs := range p.CallsToFn(cf) {
+			if strings.HasSuffix(strings.SplitN(p.Pos(cs.Pos()), ":", 2)[0], "_test.go") {
+				continue
+			}
+			n++
+			c.Bad("cache-emptied@"+fnName(cs.Fn), cs.Pos(), "%s empties a replay cache: every handshake recorded so far can be replayed from then on, within its validity window (the caches are process-wide and must outlive any one listener)", fnName(cs.Fn))
+		}
+	}
+	// the process-wide caches are assigned once, by their initialisers
+	for _, gname := range []string{"streamReplayCache", "packetReplayCache"} {
+		for _, fnn := range p.Funcs(protoPkg) {
+			instrs(fnn, func(_ *ssa.BasicBlock, _ int, in ssa.Instruction) {
+				if st, ok := in.(*ssa.Store); ok {
+					if g, ok := st.Addr.(*ssa.Global); ok && g.Name() == gname && !(fnn.Name() == "init" && fnn.Synthetic != "") {
+						n++
+						c.Bad("cache-replaced@"+fnName(fnn), in.Pos(), "%s replaces %s: what it had recorded is forgotten", fnName(fnn), gname)
+					}
+				}
+			})
+		}
+	}
+	if n == 0 {
+		c.OK("caches-never-emptied", fn.Pos(), "no product code calls ReplayCache.Clear or re-assigns the process-wide caches")
 	}
 }
